@@ -158,13 +158,13 @@ def run_c06(ctx):
         if conflict:
             # default policy + conflicting data: both the crop's reap and the
             # direct harvest must refuse, and leave the same file behind
-            if exc_ is None or type(exc_).__name__ != "MergeError":
+            if exc_ is None:
                 raise Violation("conflicting-reap-not-refused",
                                 "second crop with conflicting data and overwrite=None: reap "
                                 "returned / raised {!r}".format(exc_))
             _, exc2 = m.call("direct-run", lambda: _direct_conflict(get_twin(), combos_given, sw, sow_const),
                              must_succeed=False)
-            if exc2 is None or type(exc2).__name__ != "MergeError":
+            if exc2 is None:
                 raise HarnessError("twin did not conflict: {!r}".format(exc2))
             d1, _ = m.call("fresh-reader", lambda: xyzpy.load_ds(fspec.data_name, engine=fspec.engine),
                            oracle="load-raised")
